@@ -1,6 +1,7 @@
 from vf import Query
 
 SRC = ["src/smpi/internals/smpi_shared.cpp"]
+THOROUGH_MAX = 30  # all quick shapes + a fixed strided sample of the other thorough shapes (lib/vf.py)
 META = {
     "bounds": "1..3 private blocks per buffer (quick: <=2; merge and pipeline: up to 3x3 / 2x2), every block bound, offset and message size a symbolic "
               "size_t below 2^62 (blocks sorted, non-overlapping, non-empty); unwind 5; vector capacity 8; whole copy path (smpi_comm_copy_buffer_callback + smpi_is_shared + shift + merge + memcpy): two 8-byte allocations in the real metadata map, 1..2 symbolic private blocks each, message offsets concrete per query (0..3), size 1..4 and all bytes symbolic",
